@@ -1213,9 +1213,11 @@ pub fn alphabet_c15(tier: Tier) -> Vec<SOp> {
         SOp::Withdraw { d: 1, v: 0 },
         SOp::Undelegate { d: 1, v: 0, amt: 100, denom: 0 },
         SOp::SetWithdraw { d: 0, to: 0 },
+        // part of a delegation moved to the other validator: what accrued at the source stays
+        SOp::Redelegate { d: 1, src: 0, dst: 1, amt: 100 },
     ];
     if tier == Tier::Thorough {
-        v.extend([SOp::Advance { secs: YEAR }, SOp::Slash { v: 0, pct: 50 }, SOp::SetWithdraw { d: 0, to: 9 }, SOp::Withdraw { d: 1, v: 1 }, SOp::Undelegate { d: 0, v: 0, amt: 100, denom: 0 }]);
+        v.extend([SOp::Advance { secs: YEAR }, SOp::Slash { v: 0, pct: 50 }, SOp::SetWithdraw { d: 0, to: 9 }, SOp::Withdraw { d: 1, v: 1 }, SOp::Undelegate { d: 0, v: 0, amt: 100, denom: 0 }, SOp::Redelegate { d: 0, src: 0, dst: 1, amt: 40 }]);
     } else {
         v.push(SOp::Slash { v: 0, pct: 50 });
     }
